@@ -1119,6 +1119,10 @@ def fmt_val(v, depth=0):
         return '%s(%s)' % (v[1], fmt_val(v[2], depth + 1))
     if t == 'ret':
         return 'ret#'
+    if t == 'param':
+        return str(v[1])
+    if t == 'curwaker':
+        return 'current_waker'
     if t == 'discr':
         return 'discr(%s)' % fmt_val(v[1], depth + 1)
     if t == 'isv':
